@@ -20,6 +20,7 @@ func init() {
 			k.MaxOps = 26
 			k.Types = []string{"T0", "T1", "T2", "T3", "S0"}
 			k.Ifaces = []string{"I0"}
+			k.TwoPhase = true
 			return k
 		},
 		clauses: []string{CPoisoned, CRootCause, CContinued, CExecTwice, CBadExec, CProvSingle, CGroupMultiset, CMustRunMissing, CZeroRequired, CVerdictInvoke, CSpuriousCycle},
@@ -41,6 +42,8 @@ func init() {
 			k.WInvoke = 10
 			k.MaxScopes = 5
 			k.PFresh = 85
+			k.TwoPhase = true
+			k.MaxOps = 26
 			return k
 		},
 		clauses: []string{CRootCause, CErrIdentity, CErrClass, CSpuriousCycle, CContinued},
